@@ -9,35 +9,57 @@
 EXTENDS Integers
 E9  == 1000000000
 E18 == E9 * E9
+\* @type: (<<Int, Int, Int>>) => Int;
 Atomics(d) == d[1] * E18 + d[2] * E9 + d[3]
+\* @type: (Int) => <<Int, Int, Int>>;
 ToDec(v)   == << v \div E18, (v % E18) \div E9, v % E9 >>
+\* @type: <<Int, Int, Int>>;
 One  == <<1, 0, 0>>
+\* @type: <<Int, Int, Int>>;
 Zero == <<0, 0, 0>>
+\* @type: (Int) => <<Int, Int, Int>>;
 DecOfInt(n) == <<n, 0, 0>>
 \* ---- overridden in Java (Dec18.class) -------------------------------------------------
+\* @type: (Int, Int) => <<Int, Int, Int>>;
 DecFromRatio(n, d)   == ToDec((n * E18) \div d)               \* Decimal::from_ratio (d # 0)
+\* @type: (Int, <<Int, Int, Int>>) => Int;
 MulDec(x, dec)       == (x * Atomics(dec)) \div E18            \* Uint128 * Decimal, Uint256 * Decimal256
+\* @type: (Int, <<Int, Int, Int>>) => Int;
 DivDec(x, dec)       == (x * E18) \div Atomics(dec)            \* hub math::decimal_division (dec # 0)
+\* @type: (<<Int, Int, Int>>, Int) => <<Int, Int, Int>>;
 DecMulInt(dec, n)    == ToDec(Atomics(dec) * n)                \* Decimal256 * Decimal256::from_ratio(n,1)
+\* @type: (<<Int, Int, Int>>) => <<Int, Int, Int>>;
 DecInv(dec)          == ToDec((E18 * E18) \div Atomics(dec))   \* Fraction::inv (dec # 0)
+\* @type: (Int, Int, Int) => Int;
 MulDivFloor(x, n, d) == (x * n) \div d                         \* Uint128::multiply_ratio (d # 0)
+\* @type: (Int, Int, Int) => <<Int, Int, Int>>;
 DecFromRatio2(a, b, d) == ToDec((a * b * E18) \div d)          \* from_ratio(a*b, d) without forming a*b in 32 bits (ghosts only)
+\* @type: (Int, Int, Int, Int, Int) => Bool;
 AbsCrossDiffLe(a, b, c, d, k) == (IF a * b >= c * d THEN a * b - c * d ELSE c * d - a * b) <= k   \* |a*b - c*d| <= k without 32-bit products
 \* ---- pure TLA+ ------------------------------------------------------------------------
+\* @type: (<<Int, Int, Int>>) => Bool;
 IsZeroDec(x) == x[1] = 0 /\ x[2] = 0 /\ x[3] = 0
+\* @type: (<<Int, Int, Int>>, <<Int, Int, Int>>) => Bool;
 DecLt(x, y) == \/ x[1] < y[1]
                \/ x[1] = y[1] /\ x[2] < y[2]
                \/ x[1] = y[1] /\ x[2] = y[2] /\ x[3] < y[3]
+\* @type: (<<Int, Int, Int>>, <<Int, Int, Int>>) => Bool;
 DecLe(x, y) == x = y \/ DecLt(x, y)
+\* @type: (<<Int, Int, Int>>, <<Int, Int, Int>>) => <<Int, Int, Int>>;
 DecMin(x, y) == IF DecLt(y, x) THEN y ELSE x
+\* @type: (<<Int, Int, Int>>, <<Int, Int, Int>>) => <<Int, Int, Int>>;
 DecAdd(x, y) == LET c == x[3] + y[3]
                     b == x[2] + y[2] + (c \div E9)
                 IN << x[1] + y[1] + (b \div E9), b % E9, c % E9 >>
+\* @type: (<<Int, Int, Int>>, <<Int, Int, Int>>) => <<Int, Int, Int>>;
 DecSub(x, y) == LET c  == x[3] - y[3]                          \* requires DecLe(y, x)
                     b  == x[2] - y[2] - (IF c < 0 THEN 1 ELSE 0)
                 IN << x[1] - y[1] - (IF b < 0 THEN 1 ELSE 0),
                       IF b < 0 THEN b + E9 ELSE b, IF c < 0 THEN c + E9 ELSE c >>
+\* @type: (<<Int, Int, Int>>) => Int;
 DecFloor(x) == x[1]
+\* @type: (<<Int, Int, Int>>) => <<Int, Int, Int>>;
 DecFrac(x)  == <<0, x[2], x[3]>>
+\* @type: (<<Int, Int, Int>>) => Bool;
 IsDec(x) == x[1] >= 0 /\ x[2] >= 0 /\ x[2] < E9 /\ x[3] >= 0 /\ x[3] < E9
 =============================================================================
